@@ -15,8 +15,87 @@ let fmt_obs ((blocks, pos), e) =
   let b = List.map (fun (c, n) -> dec_of_n c ^ ":" ^ dec_of_n n) blocks in
   (if b = [] then "_" else String.concat "," b) ^ "|" ^ dec_of_n pos ^ "|" ^ fmt_end e
 
+(* kind `ardr`: args = file(hex, unused) frames index ops mode seed workers pool segs
+   frames = csize:len:a:m,... ; the scheduler of the pipeline model is given by <segs>
+   (segments separated by ';', action codes by '.'); the poll script of the source (mode, seed)
+   has no counterpart in the model: a Pending source is a Submit that is not scheduled yet. *)
+let pattern len a m = List.init len (fun i -> byte_tbl.((a + i * m) mod 251))
+
+let parse_frames s =
+  if s = "_" then [] else
+  List.map (fun p -> match split_on ':' p with
+    | [cs; l; a; m] ->
+        { csize = n_of_int (int_of_string cs);
+          fdata = pattern (int_of_string l) (int_of_string a) (int_of_string m) }
+    | _ -> failwith "frame") (split_on ',' s)
+
+let parse_index s =
+  if s = "_" then [] else
+  List.map (fun p -> match split_on ':' p with
+    | [c; u] -> (n_of_dec c, n_of_dec u) | _ -> failwith "index") (split_on ',' s)
+
+let parse_ops s =
+  if s = "_" then [] else
+  List.map (fun p ->
+    let t = String.sub p 1 (String.length p - 1) in
+    match p.[0] with
+    | 'r' -> Read (n_of_dec t)
+    | 'x' -> ReadExact (n_of_dec t)
+    | 'f' -> FillBuf
+    | 'c' -> Consume (n_of_dec t)
+    | 'a' -> ReadAll (n_of_dec t)
+    | 'k' -> (match split_on ':' t with
+              | [c; u] -> Seek (pack (n_of_dec c) (n_of_dec u)) | _ -> failwith "seek")
+    | 'u' -> SeekU (n_of_dec t)
+    | _ -> failwith "op") (split_on ',' s)
+
+let parse_segs s =
+  if s = "_" then [] else
+  List.map (fun seg ->
+    if seg = "_" then [] else List.map (fun x -> nat_of_int (int_of_string x)) (split_on '.' seg))
+    (split_on ';' s)
+
+let canon_bytes bs =
+  let n = List.length bs in
+  if n <= 16 then hex_of_bytes bs
+  else Printf.sprintf "#%d:%d" n (List.fold_left (fun h b -> mix h (int_of_n b)) 0 bs)
+
+let err_name = function
+  | UnexpectedEof0 -> "UnexpectedEof" | InvalidData0 -> "InvalidData" | InvalidInput -> "InvalidInput"
+
+let show_res f = function
+  | Ok a -> f a
+  | Err0 e -> "Err:" ^ err_name e
+  | Panic -> "Panic"
+  | OutOfFuel -> "OutOfFuel"
+  | Unmodelled -> "?"
+
+let show_vp v = dec_of_n (vcomp v) ^ ":" ^ dec_of_n (vuncomp v)
+
+let show_out = function
+  | OBytes r -> show_res canon_bytes r
+  | OUnit -> "."
+  | OPos r -> show_res dec_of_n r
+
+let is_err_out = function OBytes (Err0 _) | OPos (Err0 _) -> true | _ -> false
+
+let show_hist steps =
+  let rec go acc = function
+    | [] -> List.rev acc
+    | (o, vp) :: r ->
+        let s = show_out o ^ "@" ^ show_res show_vp vp in
+        if is_err_out o || vp = Panic then List.rev (s :: acc) else go (s :: acc) r in
+  let parts = go [] steps in
+  if parts = [] then "_" else String.concat " " parts
+
 let handle kind a =
   match kind with
+  | "ardr" ->
+      let f = parse_frames a.(1) and idx = parse_index a.(2) and ops = parse_ops a.(3) in
+      let w = nat_of_int (int_of_string a.(6)) and p = nat_of_int (int_of_string a.(7)) in
+      let segs = parse_segs a.(8) in
+      Some ("sync=" ^ show_hist (sync_reader_case f idx ops)
+            ^ " async=" ^ show_hist (async_reader_case w p segs f idx ops))
   | "frame" ->
       let file = bytes_of_hex a.(0) in
       let nvalid = nat_of_int (int_of_string a.(1)) in
